@@ -298,6 +298,7 @@ class Engine:
         self.obligations = []
         self.path_count = 0
         self.hooks = []            # discipline hook objects
+        self.lazy_init = {}
         self.covered = set()
         self.notes = []
         self._fresh = itertools.count()
@@ -371,6 +372,7 @@ class Engine:
         if k == "obj":
             o = self.new_obj(ty[1])
             if len(ty) > 2 and ty[2] == "lazy":
+                o.symbolic = True
                 return o      # fields materialise on first read; class invariants are NOT assumed (fewer facts: sound)
             self.init_symbolic_object(o, base)
             return o
@@ -488,6 +490,7 @@ class Engine:
             self._fresh = itertools.count()
             self.state = State()
             self.vars = {}
+            self.lazy_init = {}
             self.path_id = n
             try:
                 run_once()
@@ -817,6 +820,15 @@ class Engine:
             spec = self.reg.class_spec(base.cls)
             if spec is not None and attr in spec.ghost_props:
                 return self.eval_spec(spec.ghost_props[attr], {"self": base}, spec.module)
+            if getattr(base, "symbolic", False) and spec is not None and attr in spec.fields:
+                # symbolic (pre-existing) object: an unread field is arbitrary, not the class default.
+                # Its initial value is created once per path and shared by every state snapshot (old() sees the same symbol).
+                v = self.lazy_init.get(key)
+                if v is None:
+                    v = self.fresh_of_type(spec.fields[attr], "%s.%s" % (base.cls.split(".")[-1], attr))
+                    self.lazy_init[key] = v
+                self.state.heap[key] = v
+                return v
             m = self.find_method(base.cls, attr)
             if m is not None:
                 c, fn = m
